@@ -93,7 +93,7 @@ def check_cases(job):
         elif r != "unsat":
             res["errors"].append(((need, p, cls), r))
         for ob in ip.obligations:
-            cond = "false" if ob.cond is False else "(not %s)" % bsx(ob.cond)
+            cond = "true" if ob.cond is False else "(not %s)" % bsx(ob.cond)
             r, vals = solver.query(ob.ctx.script([cond]), names)
             key = "%s:%s %s" % (ob.fn.split("::")[-1], ob.bb, ob.msg)
             if r == "unsat":
